@@ -10,6 +10,10 @@ open Bump Bump.Str
 
 abbrev SB := Bytes × Nat
 
+/-- `self.vec.clone_from(&source.vec)`: `Vec<u8>` has no `clone_from` of its own, so this is std's default
+`*self = source.clone()` — the old buffer is dropped (a no-op in an arena) and the text becomes the source's -/
+def vec_clone_from (src : Bytes) (_s : SB) : SB × Outcome Unit := ((src, src.length), .ok ())
+
 /-- the string's text: the initialised prefix of the buffer -/
 def text (s : SB) : Bytes := s.1.take s.2
 
